@@ -575,7 +575,9 @@ func RunAPI(cfg Config, res *core.Result) error {
 			l []byte
 		}
 		groups := map[string][]hl{}
-		for _, l := range lines {
+		allHonest, faultyLines := splitHonest(lines)
+		nGenerated := len(lines)
+		for _, l := range faultyLines {
 			bh, err := parseBehaviour(l)
 			if err != nil {
 				return err
@@ -592,9 +594,9 @@ func RunAPI(cfg Config, res *core.Result) error {
 		sort.Slice(keys, func(a, b int) bool {
 			return core.Hash64(fmt.Sprint(cfg.Seed), keys[a]) < core.Hash64(fmt.Sprint(cfg.Seed), keys[b])
 		})
-		res.AddExtra("behaviours_generated", len(lines))
+		res.AddExtra("behaviours_generated", nGenerated)
 		res.AddExtra("case_groups", len(keys))
-		lines = lines[:0]
+		lines = append([][]byte(nil), allHonest...)
 		for round := 0; len(lines) < cfg.Max; round++ {
 			took := false
 			for _, k := range keys {
